@@ -121,6 +121,7 @@ def fe51_op(it, p):
 TARGETS = [
     dict(name="x25519-ladder-rfc7748", ladder=True, params=[{}]),
     dict(name="x25519-invert", ladder=True, params=[{}]),
+    dict(name="x25519-ladder-bounds", ladder=True, params=[{}]),
     dict(name="fe25519-51-x25519", units=["crypto_scalarmult/curve25519/ref10/x25519_ref10.c", "sodium/utils.c"], cflags=["-fno-inline-functions"], run=fe51_op,
          params=[{"op": "mul"}, {"op": "sq"}, {"op": "mul32", "n": 121666, "out": (1 << 52) - 1},
                  {"op": "add", "in": (1 << 62) - 1, "out": (1 << 63) - 2}, {"op": "sub", "in": (1 << 53) - 1, "out": FE_IN}]),
@@ -193,7 +194,8 @@ def run_one(tname, pidx, workroot):
         r = ladder.run(tname, workroot)
         r["params"] = p
         r["claim"] = ("X25519 ladder of the unit == RFC 7748 section 5 for all scalars and u (inductive over the loop, ring operations)"
-                      if tname.startswith("x25519-ladder") else "fe25519_invert(z) == z^(p-2)")
+                      if tname == "x25519-ladder-rfc7748" else "fe25519_invert(z) == z^(p-2)" if tname == "x25519-invert" else
+                      "limb bounds are inductive along the ladder: no machine wrap-around inside an iteration, limbs <= 2^51 + 2^13 at every boundary")
         return r
     try:
         wd = os.path.join(workroot, "limb-" + tname)
